@@ -1,0 +1,96 @@
+//go:build verif
+
+package gtab
+
+import (
+	"bytes"
+
+	"seehuhn.de/go/sfnt/parser"
+)
+
+// This file only exports unexported functions for the verification harness in
+// /verif (property C08).  It is compiled with the build tag "verif" only and
+// does not change any behaviour.
+
+// VerifBlob is an opaque subtable: a byte string which encodes as itself.
+type VerifBlob []byte
+
+func (st VerifBlob) apply(ctx *Context, a, b int) int { return -1 }
+func (st VerifBlob) encodeLen() int                   { return len(st) }
+func (st VerifBlob) encode() []byte                   { return []byte(st) }
+
+// VerifRef is what the verification subtable reader returns: the place where
+// readLookupList asked for a subtable, and the lookup type at that moment.
+type VerifRef struct {
+	Pos        int64
+	LookupType uint16
+}
+
+func (st *VerifRef) apply(ctx *Context, a, b int) int { return -1 }
+func (st *VerifRef) encodeLen() int                   { return 0 }
+func (st *VerifRef) encode() []byte                   { return nil }
+
+// VerifEncodeLookupList calls LookupList.encode.
+func VerifEncodeLookupList(ll LookupList) []byte { return ll.encode() }
+
+// VerifReadLookupList calls readLookupList with a subtable reader which
+// decodes extension records (lookup type extType, format 1) with the real
+// readExtensionSubtable and records position and type for everything else.
+func VerifReadLookupList(data []byte, pos int64, extType uint16) (LookupList, error) {
+	p := parser.New(bytes.NewReader(data))
+	sr := func(p *parser.Parser, pos int64, meta *LookupMetaInfo) (Subtable, error) {
+		if meta.LookupType == extType {
+			err := p.SeekPos(pos)
+			if err != nil {
+				return nil, err
+			}
+			format, err := p.ReadUint16()
+			if err != nil {
+				return nil, err
+			}
+			if format != 1 {
+				return nil, &parser.InvalidFontError{
+					SubSystem: "sfnt/opentype/gtab",
+					Reason:    "unknown extension subtable format",
+				}
+			}
+			return readExtensionSubtable(p, pos)
+		}
+		return &VerifRef{Pos: pos, LookupType: meta.LookupType}, nil
+	}
+	return readLookupList(p, pos, sr)
+}
+
+// VerifSubtableEncode calls the encode method of a subtable.
+func VerifSubtableEncode(s Subtable) []byte { return s.encode() }
+
+// VerifSubtableEncodeLen calls the encodeLen method of a subtable.
+func VerifSubtableEncodeLen(s Subtable) int { return s.encodeLen() }
+
+// VerifReadGsubSubtable calls readGsubSubtable at position pos of data.
+func VerifReadGsubSubtable(data []byte, pos int64, lookupType uint16) (Subtable, error) {
+	p := parser.New(bytes.NewReader(data))
+	return readGsubSubtable(p, pos, &LookupMetaInfo{LookupType: lookupType})
+}
+
+// VerifReadGposSubtable calls readGposSubtable at position pos of data.
+func VerifReadGposSubtable(data []byte, pos int64, lookupType uint16) (Subtable, error) {
+	p := parser.New(bytes.NewReader(data))
+	return readGposSubtable(p, pos, &LookupMetaInfo{LookupType: lookupType})
+}
+
+// VerifEncodeScriptList calls ScriptListInfo.encode.
+func VerifEncodeScriptList(info ScriptListInfo) []byte { return info.encode() }
+
+// VerifReadScriptList calls readScriptList.
+func VerifReadScriptList(data []byte, pos int64) (ScriptListInfo, error) {
+	return readScriptList(parser.New(bytes.NewReader(data)), pos)
+}
+
+// VerifEncodeFeatureList calls FeatureListInfo.encode.
+func VerifEncodeFeatureList(info FeatureListInfo) []byte { return info.encode() }
+
+// VerifReadFeatureList calls readFeatureList.
+func VerifReadFeatureList(data []byte, pos int64) (FeatureListInfo, error) {
+	return readFeatureList(parser.New(bytes.NewReader(data)), pos)
+}
